@@ -7,4 +7,7 @@ open Distill.Gen
 theorem fam1_cells : ∀ c ∈ allCells, cellOk fam1 c.1 c.2 = true := by
   decide +kernel
 
+theorem fam1_bare : ∀ n ∈ allN, bareOk fam1 n = true := by
+  decide +kernel
+
 end Distill.C17
